@@ -2,6 +2,7 @@ package interp
 
 import (
 	"fmt"
+	"os"
 	"sort"
 	"sync"
 	"time"
@@ -71,6 +72,8 @@ type Engine struct {
 	Intrinsics map[string]Intrinsic
 	Subst      map[string]*ssa.Function // fully-qualified function -> harness replacement
 	MaxLoop    int
+	LoopBounds map[string]int // function name -> unwinding bound for its loops (overrides MaxLoop)
+	UnwindIgnore bool // paths cut by an unwinding bound are dropped silently (stated in the evidence)
 	MaxDepth   int
 	MaxWidth   int // max values when concretising
 	MaxPreempt int
@@ -107,6 +110,7 @@ type Engine struct {
 	nQ         uint64
 	Exhausted  string // non-empty: exploration was cut (budget/deadline)
 	SchedPts   int
+	Fallbacks  int // assertion queries decided by the one-shot fallback
 }
 
 type worklist struct {
@@ -428,7 +432,37 @@ func (r *run) check(c *term.Term, label, kind, detail string) {
 	r.keepQuery(label, neg, res)
 	if err != nil || res == solver.Unknown {
 		r.sol.Pop()
-		r.incomplete = "assertion query unknown: " + label
+		// portfolio fallback: one-shot z3 (different tactics), then z3 5.1
+		ts := append(append([]*term.Term{}, r.pc...), neg)
+		fres, fm := solver.OneShot("z3", []string{"-in", "-T:120"}, ts, r.inputs, 130*time.Second)
+		if fres == solver.Unknown {
+			fres, fm = solver.OneShot("z3-new", []string{"-in", "-T:120"}, ts, r.inputs, 130*time.Second)
+		}
+		r.eng.mu.Lock()
+		r.eng.Fallbacks++
+		r.eng.mu.Unlock()
+		switch fres {
+		case solver.Unsat:
+			if !r.feasible(c) {
+				panic(pathEnd{kind: "assume", msg: "assertion always fails here: " + label})
+			}
+			r.addPC(c)
+			return
+		case solver.Sat:
+			r.record(Violation{Label: label, Model: fm, Kind: kind, Detail: detail + " (model from one-shot solver fallback; no UF table)"})
+			if !r.feasible(c) {
+				panic(pathEnd{kind: "assume", msg: "assertion always fails here: " + label})
+			}
+			r.addPC(c)
+			return
+		}
+		r.incomplete = "assertion query unknown on incremental and one-shot solvers: " + label
+		if err != nil {
+			r.incomplete += " (" + err.Error() + ")"
+		}
+		if d := os.Getenv("GOSYM_DUMP_UNKNOWN"); d != "" {
+			os.WriteFile(fmt.Sprintf("%s/unknown-%s-%d.smt2", d, label, len(r.taken)), []byte(solver.Script(ts, "")), 0o644)
+		}
 		return
 	}
 	if res == solver.Sat {
